@@ -14,6 +14,7 @@ What is proved here, over the statement-by-statement models of `Format` (Model.l
     (`fmt_preserves_tokens_partial`, `fmt_idempotent_partial`).
 -/
 import CaddyModel.C17.Lemmas
+import CaddyModel.C17.LexLemmas
 import CaddyModel.C17.Witness
 
 namespace CaddyModel.C17
@@ -92,5 +93,52 @@ example : (run (trimSpace (runes "a {\nb {\nc\n}\n}"))).nesting = 0 ∧
 -- the cap: twelve opening braces, nesting stays at 10
 set_option maxRecDepth 100000 in
 example : (run (runes "a {\na {\na {\na {\na {\na {\na {\na {\na {\na {\na {\na {\na")).nesting = 10 := by decide
+
+/-! ### meaning preservation and idempotence
+
+FULL STATEMENTS (both FALSE on the unchanged tree — `Witness.fmt_preserves_tokens_full_fails`,
+`Witness.fmt_idempotent_full_fails`, 43 classes of witnesses in `Witness.token_witnesses_all_fail`
+/ `idem_witnesses_all_fail`):
+
+    ∀ x, preservesTokens x = true        -- Tokenize (Format x) means what Tokenize x means
+    ∀ x, idempotentAt x = true           -- Format (Format x) = Format x
+
+PROVED PART: both hold for every input in the fragment `W` (`inW`, Fragment.lean — an explicit
+DECIDABLE predicate on rune strings, no size bound): plain words, any non-CR white space /
+indentation / blank lines, arbitrarily nested `… {⏎ … ⏎}` blocks.  NOT covered by these two
+theorems (only by the correspondence stream and the impl-side oracle): comments, quoted /
+backquoted / heredoc tokens, placeholders `{x}`, line continuations, `#`/`"`/`<` inside words, CR.
+-/
+
+/-- on `W`, `Format` is the canonical re-rendering of the chunks (exact output) -/
+theorem fmt_canonical_on_W (x : List Rune) (h : inW x = true) :
+    ∃ (c : Chunk) (cs : List Chunk), goodFrom none (c :: cs) = true ∧
+      format x = flatten (canon none 0 (c :: cs)) ++ [rNL] := by
+  obtain ⟨lead, trail, c, cs, hx, hl, ht, hs, hg⟩ := inW_decompose h
+  exact ⟨c, cs, hg, by rw [hx]; exact (W_core hl ht hs hg).1⟩
+
+/-- **meaning preservation on `W`**: the formatted text tokenizes to the same token texts,
+    quote kinds and line grouping as the original -/
+theorem fmt_preserves_tokens_partial (x : List Rune) (h : inW x = true) : preservesTokens x = true := by
+  obtain ⟨lead, trail, c, cs, hx, hl, ht, hs, hg⟩ := inW_decompose h
+  rw [hx]; exact (W_core hl ht hs hg).2.1
+
+/-- **idempotence on `W`** -/
+theorem fmt_idempotent_partial (x : List Rune) (h : inW x = true) : idempotentAt x = true := by
+  obtain ⟨lead, trail, c, cs, hx, hl, ht, hs, hg⟩ := inW_decompose h
+  rw [hx]; exact (W_core hl ht hs hg).2.2
+
+/-! non-vacuity: `W` contains real files (nested blocks, odd indentation, blank lines, Unicode
+words), and the exclusions are tight (each excluded shape is a proved counter-example) -/
+
+set_option maxRecDepth 100000 in
+example : inW (runes "  example.com   {\n\n\n  reverse_proxy  10.0.0.1:80\n\thandle /api/* {\n respond 200\n}\n\n\n\n}\nlocalhost\n\n") = true := by
+  decide
+set_option maxRecDepth 100000 in
+example : inW (runes "{\n  admin off\n}\n:443 {\n}\n") = true := by decide
+-- excluded, and indeed failing: one-line block, dangling brace, brace first on its line, CR inside a word
+set_option maxRecDepth 100000 in
+example : inW (runes "a { b }") = false ∧ inW (runes "a {") = false ∧ inW (runes "a\n{\n}") = false ∧
+    inW (runes "a\rb") = false := by decide
 
 end CaddyModel.C17
